@@ -221,8 +221,10 @@ pub fn main(tier: Tier, seed: u64) -> i32 {
         }
     };
     let cap = if tier.is_thorough() { usize::MAX } else { 3 };
-    let cases = match gen_cases(&cfgs, cap, tier.is_thorough(), &|l| !is_online(l), false) {
-        Ok(c) => c,
+    let cases = match gen_cases(&cfgs, cap, tier.is_thorough(), &|l| !is_online(l), true) {
+        // count-changing mutations only for nested vectors (a value announced without its MAC);
+        // outer lengths are C08's subject
+        Ok(c) => c.into_iter().filter(|c| !c.muts[0].malformed || c.muts[0].path.as_ref().is_some_and(|p| p.len() >= 2)).collect::<Vec<_>>(),
         Err(e) => {
             rep.machinery(e);
             return rep.finish();
